@@ -8,6 +8,7 @@
 package main
 
 import (
+	"syscall"
 	"bufio"
 	"encoding/hex"
 	"encoding/json"
@@ -21,6 +22,11 @@ func main() {
 	if len(os.Args) < 2 {
 		fmt.Fprintln(os.Stderr, "usage: drv <subcommand>")
 		os.Exit(2)
+	}
+	if v := os.Getenv("VERIF_NOFILE"); "" != v { /* run with few file descriptors: whatever is opened must be closed again */
+		var n uint64
+		fmt.Sscan(v, &n)
+		syscall.Setrlimit(syscall.RLIMIT_NOFILE, &syscall.Rlimit{Cur: n, Max: n})
 	}
 	f, ok := subcommands[os.Args[1]]
 	if !ok {
